@@ -2582,7 +2582,7 @@ func translate(p *packages.Package, f SpecFn, known map[string]*SpecFn, errs map
 	for i := 0; i < sig.Params().Len(); i++ {
 		v := sig.Params().At(i)
 		fi.pnames = append(fi.pnames, v.Name())
-		if k := kindOf(v.Type()); k != "" && k != "err" {
+		if k := kindOf(v.Type()); k != "" {
 			fi.params = append(fi.params, v.Name())
 		} else {
 			fi.params = append(fi.params, "")
